@@ -84,8 +84,16 @@ where
     let mut r#match = None;
     let mut len = 0;
 
+    // A field that spans more than one buffer fill may be split in the middle of a UTF-8 byte
+    // sequence, so its raw bytes are collected and validated when the field is complete.
+    let mut partial = Vec::new();
+
     loop {
-        let src = reader.fill_buf()?;
+        let src = match reader.fill_buf() {
+            Ok(src) => src,
+            Err(e) if e.kind() == io::ErrorKind::Interrupted => continue,
+            Err(e) => return Err(e),
+        };
 
         if r#match.is_some() || src.is_empty() {
             break;
@@ -99,12 +107,23 @@ where
             None => (src, src.len()),
         };
 
-        let s = str::from_utf8(buf).map_err(|e| io::Error::new(io::ErrorKind::InvalidData, e))?;
-        dst.push_str(s);
+        if r#match.is_some() && partial.is_empty() {
+            let s =
+                str::from_utf8(buf).map_err(|e| io::Error::new(io::ErrorKind::InvalidData, e))?;
+            dst.push_str(s);
+        } else {
+            partial.extend_from_slice(buf);
+        }
 
         len += n;
 
         reader.consume(n);
+    }
+
+    if !partial.is_empty() {
+        let s =
+            str::from_utf8(&partial).map_err(|e| io::Error::new(io::ErrorKind::InvalidData, e))?;
+        dst.push_str(s);
     }
 
     let is_eol = matches!(r#match, Some(LINE_FEED));
